@@ -76,34 +76,32 @@ _add(mk_index(3, True))
 _add(mk_index(4, False)).tier = 'thorough'
 
 
-# ---- grow-only history: appends / extends, caches materialised in between (a symbolic choice)
+# ---- grow-only history: appends / extends, caches materialised in between
 
-def mk_go_history(auto):
-    def body(env, a, b, c, read0, read1, probe, afloat):
+def mk_go_history(auto, read0, read1, tier='quick'):
+    def body(env, a, b, afloat=False, c=55, probe=99):
+        from vf import rt
         sf = env.sf
         if auto:
-            idx = sf.IndexGO(range(2), loc_is_iloc=True)
+            idx = rt.untraced(lambda: sf.IndexGO(range(2), loc_is_iloc=True))
             labels = [0, 1]
         else:
-            idx = sf.IndexGO([10, 20])
+            idx = rt.untraced(lambda: sf.IndexGO([10, 20]))
             labels = [10, 20]
         trace = []
         exp = []
-        steps = [('append', a), ('append', b), ('extend', [c, 77])]
+        steps = [('append', a), ('extend', [b, c])]
         for si, (kind, v) in enumerate(steps):
             if (si == 0 and read0) or (si == 1 and read1):
                 trace.append(env.obs(idx.values.tolist()))   # materialise caches before growing again
                 exp.append(list(labels))
             if si == 0 and auto and afloat:
                 v = 2.0   # a float label numerically equal to the next position must NOT keep the index map-less
-            before = list(labels)
             try:
                 if kind == 'append':
                     idx.append(v)
-                    new = [v]
                 else:
                     idx.extend(v)
-                    new = list(v)
                 ok = True
             except KeyError:
                 ok = False
@@ -124,80 +122,97 @@ def mk_go_history(auto):
             trace.append(view(env, idx, labels, probe))
             exp.append(ref_view(labels, probe))
         return trace, exp
-    return Cond(f'indexgo_history_{"auto" if auto else "labels"}',
-            [('a', 'int'), ('b', 'int'), ('c', 'int'), ('read0', 'bool'), ('read1', 'bool'), ('probe', 'int'), ('afloat', 'bool')], body,
+    return Cond(f'indexgo_history_{"auto" if auto else "labels"}_r{int(read0)}{int(read1)}',
+            [('a', 'int'), ('b', 'int')] + ([('afloat', 'bool')] if auto else []), body, tier=tier,
             functions=['_IndexGOMixin.append', '_IndexGOMixin.extend', '_IndexGOMixin._update_array_cache', 'Index._loc_to_iloc'],
-            bounds=('IndexGO of 2 labels (' + ('auto-integer, map-less' if auto else 'explicit') + '); history append(a), append(b), extend([c, 77]) with a, b, c, probe UNBOUNDED symbolic ints; '
-                    'symbolic choice whether .values is read before each append; symbolic choice that the first appended label is the float 2.0'),
-            route='IndexGO.append / extend with reads in between; every read route after every step', timeout=200)
+            bounds=('IndexGO of 2 labels (' + ('auto-integer, map-less' if auto else 'explicit') + '); history append(a), extend([b, 55]) with a, b UNBOUNDED symbolic ints (absent probe 99 fixed); '
+                    f'.values read before 1st/2nd append: {read0}/{read1}' + ('; symbolic choice that the first appended label is the float 2.0' if auto else '')),
+            route='IndexGO.append / extend with reads in between; every read route after every step', timeout=240)
 
 
-_add(mk_go_history(False))
-_add(mk_go_history(True))
+for _r0, _r1, _t in ((True, True, 'quick'), (False, False, 'quick'), (True, False, 'thorough'), (False, True, 'thorough')):
+    _add(mk_go_history(False, _r0, _r1, _t))
+    _add(mk_go_history(True, _r0, _r1, _t))
+
+
+def body_auto_negative(env, probe):
+    sf = env.sf
+    idx = sf.IndexGO(range(3), loc_is_iloc=True)
+    return view(env, idx, [0, 1, 2], probe), ref_view([0, 1, 2], probe)
+
+
+_add(Cond('index_auto_negative_probe', [('probe', 'int')], body_auto_negative, pre=['probe < 0'],
+        functions=['Index._loc_to_iloc'],
+        bounds='map-less auto-integer IndexGO of 3; probe an UNBOUNDED negative symbolic int (never a held label: must raise)',
+        route='IndexGO(range(3), loc_is_iloc=True).loc_to_iloc(negative int)'))
 
 
 # ---- derived indices re-satisfy the bijection
 
-def body_derived(env, l0, l1, l2, k, shift, probe):
-    sf = env.sf
-    labels = [l0, l1, l2]
-    idx = sf.Index(labels)
-    pos = None
-    for i in range(3):
-        if k == i:
-            pos = i
-    out, exp = [], []
-    d = idx._drop_iloc(pos)
-    dl = [l for i, l in enumerate(labels) if i != pos]
-    out.append(view(env, d, dl, probe)); exp.append(ref_view(dl, probe))
-    s = None
-    for i in range(-3, 4):
-        if shift == i:
-            s = i
-    r = idx.roll(s)
-    rl = [labels[(i - s) % 3] for i in range(3)]
-    out.append(view(env, r, rl, probe)); exp.append(ref_view(rl, probe))
-    so = idx.sort()
-    sl = sorted(labels)
-    out.append(view(env, so, sl, probe)); exp.append(ref_view(sl, probe))
-    sd = idx.sort(ascending=False)
-    out.append(view(env, sd, sl[::-1], probe)); exp.append(ref_view(sl[::-1], probe))
-    sel = idx.iloc[[2, 0]]
-    out.append(view(env, sel, [l2, l0], probe)); exp.append(ref_view([l2, l0], probe))
-    return out, exp
+def mk_derived(what):
+    def body_derived(env, l0, l1, l2, k, probe):
+        sf = env.sf
+        labels = [l0, l1, l2]
+        idx = sf.Index(labels)
+        if what == 'drop':
+            pos = None
+            for i in range(3):
+                if k == i:
+                    pos = i
+            d = idx._drop_iloc(pos)
+            dl = [l for i, l in enumerate(labels) if i != pos]
+        elif what == 'roll':
+            s_ = None
+            for i in range(-3, 4):
+                if k == i:
+                    s_ = i
+            d = idx.roll(s_)
+            dl = [labels[(i - s_) % 3] for i in range(3)]
+        elif what == 'sort':
+            asc = k >= 0
+            d = idx.sort(ascending=asc)
+            dl = sorted(labels) if asc else sorted(labels)[::-1]
+        else:
+            d = idx.iloc[[2, 0]]
+            dl = [l2, l0]
+        return view(env, d, dl, probe), ref_view(dl, probe)
+    return Cond(f'index_derived_{what}', [('l0', 'int'), ('l1', 'int'), ('l2', 'int'), ('k', 'int'), ('probe', 'int')], body_derived,
+        ranges={'k': (0, 2) if what == 'drop' else (-3, 3)}, pre=['l0 != l1', 'l0 != l2', 'l1 != l2'],
+        functions={'drop': ['Index._drop_iloc'], 'roll': ['Index.roll'], 'sort': ['Index.sort'], 'iloc': ['Index._extract_iloc']}[what],
+        bounds='3 distinct UNBOUNDED symbolic int labels and probe; dropped position in 0..2 / roll shift in -3..3 / sort direction symbolic',
+        route=f'Index {what} then every read route', timeout=150)
 
 
-_add(Cond('index_derived', [('l0', 'int'), ('l1', 'int'), ('l2', 'int'), ('k', 'int'), ('shift', 'int'), ('probe', 'int')], body_derived,
-        ranges={'k': (0, 2), 'shift': (-3, 3)}, pre=['l0 != l1', 'l0 != l2', 'l1 != l2'],
-        functions=['Index._drop_iloc', 'Index.roll', 'Index.sort', 'Index._extract_iloc'],
-        bounds='3 distinct UNBOUNDED symbolic int labels; dropped position in 0..2, roll shift in -3..3, probe unbounded',
-        route='Index._drop_iloc / roll / sort / iloc[list] then every read route', timeout=200))
+for _w in ('drop', 'roll', 'sort', 'iloc'):
+    _add(mk_derived(_w))
 
 
-def body_setops(env, a0, a1, b0, b1, probe):
-    sf = env.sf
-    a, b = [a0, a1], [b0, b1]
-    ia, ib = sf.Index(a), sf.Index(b)
-    out, exp = [], []
-    for name, ref in (('union', sorted(set(a) | set(b))), ('intersection', sorted(set(a) & set(b))),
-                      ('difference', sorted(set(a) - set(b)))):
-        r = getattr(ia, name)(ib)
+def mk_setop(opname):
+    def body_setops(env, a0, a1, b0, b1, probe=2):
+        sf = env.sf
+        a, b = [a0, a1], [b0, b1]
+        ia, ib = sf.Index(a), sf.Index(b)
+        ref = {'union': sorted(set(a) | set(b)), 'intersection': sorted(set(a) & set(b)),
+               'difference': sorted(set(a) - set(b))}[opname]
+        r = getattr(ia, opname)(ib)
         got = env.obs(r.values.tolist())
+        out, exp = [], []
         # identical operands keep their order; otherwise the result is the set, each label once
         if a == b:
-            want = a if name != 'difference' else []
-            out.append(got); exp.append(want)
+            out.append(got); exp.append(a if opname != 'difference' else [])
         else:
             out.append(sorted(got)); exp.append(ref)
         out.append(view(env, r, got, probe)[:7]); exp.append(ref_view(got, probe)[:7])
-    return out, exp
-
-
-_add(Cond('index_set_algebra', [('a0', 'int'), ('a1', 'int'), ('b0', 'int'), ('b1', 'int'), ('probe', 'int')], body_setops,
+        return out, exp
+    return Cond(f'index_set_{opname}', [('a0', 'int'), ('a1', 'int'), ('b0', 'int'), ('b1', 'int')], body_setops,
         ranges={p: (0, 3) for p in ('a0', 'a1', 'b0', 'b1')}, pre=['a0 != a1', 'b0 != b1'],
         functions=['Index._ufunc_set', '_ufunc_set_1d'],
-        bounds='two indices of 2 distinct labels each, labels symbolic in 0..3 (the oracle uses Python sets, which hash), probe unbounded',
-        route='Index.union / intersection / difference; result is duplicate-free and a bijection', timeout=200))
+        bounds='two indices of 2 distinct labels each, labels symbolic in 0..3 (the oracle uses Python sets, which hash); probe fixed',
+        route=f'Index.{opname}; result is duplicate-free and a bijection', timeout=150)
+
+
+for _o in ('union', 'intersection', 'difference'):
+    _add(mk_setop(_o))
 
 
 # ---- hierarchical: tree check, bijection over tuples, grow-only history with stale-cache derivation
@@ -215,7 +230,6 @@ def is_tree_order(tuples):
 
 
 def hview(env, ih, tuples, probe):
-    from static_frame.core.exception import LocInvalid
     out = [len(ih), env.obs([tuple(t) for t in ih]), env.obs([tuple(r) for r in ih.values.tolist()]), ih.depth]
     out.append([env.obs(ih.loc_to_iloc(t)) for t in tuples])
     out.append([env.obs(t in ih) for t in tuples])
@@ -228,7 +242,7 @@ def ref_hview(tuples, probe):
     return [n, [list(t) for t in tuples], [list(t) for t in tuples], 2, list(range(n)), [True] * n, probe in tuples]
 
 
-def body_ih(env, o0, o1, o2, i0, i1, i2, po, pi):
+def body_ih(env, o0, o1, i0, i1, o2=1, i2=5, po=1, pi=4):
     sf = env.sf
     from static_frame.core.exception import ErrorInitIndex
     tuples = [(o0, i0), (o1, i1), (o2, i2)]
@@ -242,43 +256,53 @@ def body_ih(env, o0, o1, o2, i0, i1, i2, po, pi):
     return hview(env, ih, tuples, (po, pi)), ref_hview(tuples, (po, pi))
 
 
-_add(Cond('hierarchy_from_labels', [(p, 'int') for p in ('o0', 'o1', 'o2', 'i0', 'i1', 'i2', 'po', 'pi')], body_ih,
+_add(Cond('hierarchy_from_labels', [(p, 'int') for p in ('o0', 'o1', 'i0', 'i1')], body_ih,
+        ranges={'o0': (0, 1), 'o1': (0, 1), 'i0': (4, 5), 'i1': (4, 5)},
         functions=['IndexHierarchy.from_labels', 'IndexHierarchy._loc_to_iloc', 'IndexLevel.leaf_loc_to_iloc'],
-        bounds='3 depth-2 label tuples and a probe tuple, all components UNBOUNDED symbolic ints (duplicates and non-tree orders must be rejected)',
+        bounds='3 depth-2 label tuples (o0,i0), (o1,i1), (1,5): outer labels symbolic in 0..1, inner in 4..5 (from_labels hashes labels: the solver enumerates); duplicates and non-tree orders must be rejected',
         route='IndexHierarchy.from_labels: len / iter / values / loc_to_iloc / in', timeout=240))
+_add(Cond('hierarchy_from_labels_3', [(p, 'int') for p in ('o0', 'o1', 'o2', 'i0', 'i1', 'i2')], body_ih,
+        ranges={'o0': (0, 1), 'o1': (0, 1), 'o2': (0, 1), 'i0': (4, 6), 'i1': (4, 6), 'i2': (4, 6)},
+        functions=['IndexHierarchy.from_labels'], tier='thorough', timeout=1800,
+        bounds='3 depth-2 label tuples: outer labels symbolic in 0..1, inner in 4..6',
+        route='IndexHierarchy.from_labels: len / iter / values / loc_to_iloc / in'))
 
 
-def body_ihgo(env, a, b, read, how):
-    sf = env.sf
-    tuples = [(1, 10), (1, 20), (2, 10)]
-    g = sf.IndexHierarchyGO.from_labels(tuples)
-    out, exp = [], []
-    if read:
-        out.append(env.obs([tuple(r) for r in g.values.tolist()])); exp.append([list(t) for t in tuples])
-    new = (2, a)
-    try:
-        g.append(new)
-        ok = True
-    except Exception:  # noqa: BLE001  (duplicate leaf)
-        ok = False
-    ref_ok = new not in tuples
-    if ref_ok:
-        tuples.append(new)
-    out.append(ok); exp.append(ref_ok)
-    out.append(hview(env, g, tuples, (2, b))); exp.append(ref_hview(tuples, (2, b)))
-    # a static index derived AFTER the growth must see the grown labels through every route
-    if how == 0:
-        d = sf.IndexHierarchy(g)
-    elif how == 1:
-        d = g.rename('x')
-    else:
-        d = g.copy()
-    out.append(hview(env, d, tuples, (2, b))); exp.append(ref_hview(tuples, (2, b)))
-    return out, exp
-
-
-_add(Cond('hierarchy_go_append_derive', [('a', 'int'), ('b', 'int'), ('read', 'bool'), ('how', 'int')], body_ihgo,
-        ranges={'how': (0, 2)},
+def mk_ihgo(read, how, tier='quick'):
+    def body_ihgo(env, a, b):
+        sf = env.sf
+        tuples = [(1, 10), (1, 11), (2, 10)]
+        from vf import rt
+        g = rt.untraced(lambda: sf.IndexHierarchyGO.from_labels(list(tuples)))
+        out, exp = [], []
+        if read:
+            out.append(env.obs([tuple(r) for r in g.values.tolist()])); exp.append([list(t) for t in tuples])
+        new = (2, a)
+        try:
+            g.append(new)
+            ok = True
+        except Exception:  # noqa: BLE001  (duplicate leaf)
+            ok = False
+        ref_ok = new not in tuples
+        if ref_ok:
+            tuples.append(new)
+        out.append(ok); exp.append(ref_ok)
+        out.append(hview(env, g, tuples, (2, b))); exp.append(ref_hview(tuples, (2, b)))
+        # a static index derived AFTER the growth must see the grown labels through every route
+        if how == 0:
+            d = sf.IndexHierarchy(g)
+        elif how == 1:
+            d = g.rename('x')
+        else:
+            d = g.copy()
+        out.append(hview(env, d, tuples, (2, b))); exp.append(ref_hview(tuples, (2, b)))
+        return out, exp
+    return Cond(f'hierarchy_go_append_derive_r{int(read)}_h{how}', [('a', 'int'), ('b', 'int')], body_ihgo, ranges={'a': (9, 11), 'b': (9, 11)},
         functions=['IndexHierarchyGO.append', 'IndexHierarchy.__init__', 'IndexHierarchy._update_array_cache'],
-        bounds='IndexHierarchyGO of 3 leaves; appended inner label and probe UNBOUNDED symbolic ints; symbolic choice of reading .values before the append and of the derivation route (constructor / rename / copy)',
-        route='IndexHierarchyGO.append then IndexHierarchy(g) | g.rename | g.copy: every read route agrees with the list', timeout=240))
+        bounds=f'IndexHierarchyGO of 3 leaves; appended inner label and probe symbolic in 9..11 (duplicate leaf / inner label repeated under another parent / new); .values read before the append: {read}; derivation route {("constructor", "rename", "copy")[how]}',
+        route='IndexHierarchyGO.append then IndexHierarchy(g) | g.rename | g.copy: every read route agrees with the list', timeout=240, tier=tier)
+
+
+for _read in (True, False):
+    for _how in (0, 1, 2):
+        _add(mk_ihgo(_read, _how, 'quick' if (_read and _how in (0, 1)) or (not _read and _how == 2) else 'thorough'))
